@@ -268,6 +268,8 @@ class FC:
     pos = 0
     pc = []
     pending = []
+    memo = {}
+    keep = []
     active = False
     max_paths = 64
 
@@ -287,6 +289,11 @@ def _fork_bool(self):
         return False
     if not FC.active:
         raise Unsupported(f"symbolic branch outside a forking run: {str(s)[:80]}")
+    key = s.get_id()
+    if key in FC.memo:                  # the same condition asked again on this path: same answer, no new fork
+        return FC.memo[key]
+    if z3.is_not(s) and s.arg(0).get_id() in FC.memo:
+        return not FC.memo[s.arg(0).get_id()]
     if FC.pos < len(FC.decisions):
         d = FC.decisions[FC.pos]
     else:
@@ -295,6 +302,8 @@ def _fork_bool(self):
         FC.pending.append(FC.decisions[:-1] + [False])
     FC.pos += 1
     FC.pc.append(self if d else z3.Not(self))
+    FC.memo[key] = d
+    FC.keep.append(s)                   # keeps the AST (and its id) alive for the rest of the path
     return d
 
 
@@ -316,6 +325,8 @@ def run_paths(fn, feasible=None):
         FC.pos = 0
         FC.pc = []
         FC.pending = []
+        FC.memo = {}
+        FC.keep = []
         FC.active = True
         rt = fresh_runtime()
         try:
